@@ -231,6 +231,8 @@ class Gen:
         a, b, g = self.last_parties
         name = a if self.r.random() < 0.5 else b
         x = self.r.random()
+        if x < 0.08:
+            return f"{a} v. {b} at {self.pick(['3', '17', '200'])}"
         if x < 0.30:
             return f"{name} at {self.pick(['3', '17', '200'])}"
         if x < 0.55:
